@@ -118,6 +118,27 @@ NOT_COVERED = ["periodic evaluation thread: 'no later than one period afterwards
 
 C18_CPPS = ["src/ompl/base/src/PlannerTerminationCondition.cpp", "src/ompl/base/terminationconditions/src/IterationTerminationCondition.cpp",
             "src/ompl/base/terminationconditions/src/CostConvergenceTerminationCondition.cpp"]
+# ---- the sequential skeleton around the evaluation thread (constructor, stopEvalThread, the thread body with volatile flag reads) ----
+THR_RULES = [(r"thread_ = new std::thread\(\[this\]\s*\{\s*periodicEval\(\);\s*\}\);", "thread_ = NEW_THREAD();", 0), (r"thread_->join\(\);", "JOIN(thread_);", 0), (r"delete thread_;", "DELETE_THREAD(thread_);", 0),
+             (r"\bnullptr\b", "NULL", 0), (r"\bstartEvalThread\(\)", "impl_startEvalThread()", 0)]
+PE_RULES = [(r"time::duration s = time::seconds\(period_\);", "double s = period_;", 1), (r"count = 0\.5 \+ period_ / 0\.001;", "count = COUNT_FOR(period_);", 1),
+            (r"s = time::seconds\(period_ / \(double\)count\);", "s = SLICE(period_, count);", 1), (r"std::this_thread::sleep_for\(s\);", "SLEEP(s);", 1),
+            (r"\bterminate_\b", "RD_TERM()", 1), (r"\bsignalThreadStop_\b", "RD_STOP()", 1), (r"\bfn_\(\)", "FN()", 1)]
+THR_SOURCES = [
+    dict(name="ctor", file=PTC, sig=r"PlannerTerminationConditionImpl\(PlannerTerminationConditionFn fn, double period\)[^{]*", rules=THR_RULES, loops={}),
+    dict(name="startEvalThread", file=PTC, sig=r"\n\s+void startEvalThread\(\)", rules=THR_RULES, loops={}),
+    dict(name="stopEvalThread", file=PTC, sig=r"\n\s+void stopEvalThread\(\)", rules=THR_RULES, loops={}),
+    dict(name="periodicEval", file=PTC, sig=r"\n\s+void periodicEval\(\)", rules=PE_RULES, loops={"allow_uncontracted": True}),
+]
+for h, needs, fn, bound, can in (
+        ("ctor", ["ctor", "startEvalThread"], "PlannerTerminationConditionImpl::PlannerTerminationConditionImpl / startEvalThread", None, [dict(name="thread_only_for_long_periods", where="body:ctor", rx=r"period_ > 0\.0", repl="period_ > 0.001")]),
+        ("stop", ["stopEvalThread"], "PlannerTerminationConditionImpl::stopEvalThread", None, [dict(name="join_before_flag", where="body:stopEvalThread", rx=r"signalThreadStop_ = true;(.*)\}\s*$", repl=r"\1 signalThreadStop_ = true; }")]),
+        ("periodicEval", ["periodicEval"], "PlannerTerminationConditionImpl::periodicEval", "<= 12 flag reads, count <= 3", [dict(name="stops_once_true", where="body:periodicEval", rx=r"while \(!RD_TERM\(\) && !RD_STOP\(\)\)", repl="while (!RD_TERM() && !RD_STOP() && !evalValue_)")])):
+    u = dict(name="c18_impl_" + h, template="C18/impl_thread.c", mode="plain", entry="h_" + h, sources=THR_SOURCES, needs=needs, flags=PFLAGS, backend="minisat", timeout=300, functions=["PlannerTerminationCondition::" + fn], canaries=can)
+    if bound: u.update(level="bounded", bound=bound, unwind=16)
+    else: u.update(level="proof")
+    UNITS.append(u)
+
 NATIVE = [dict(name="c18_native_oracle", driver="native/c18_native.cpp", link_ompl=True, unit_cpps=C18_CPPS, args=lambda tier, seed: ["all", seed], timeout=300)]
 
 
